@@ -1,0 +1,20 @@
+//go:build verif
+// +build verif
+
+package bitmap
+
+// Verification hooks. Compiled only with `-tags verif`; the shipped behaviour
+// is unchanged without the tag.
+
+// VerifSetReclaimThreshold sets the size threshold in bit for reclamation of
+// TailBitmap.Words and returns the previous value.
+func VerifSetReclaimThreshold(bits int64) int64 {
+	old := reclaimThreshold
+	reclaimThreshold = bits
+	return old
+}
+
+// VerifTableBytes returns a copy of the select lookup table.
+func VerifTableBytes() []byte {
+	return append([]byte(nil), select8Lookup[:]...)
+}
